@@ -33,6 +33,7 @@ CONSTANTS
   InitSnaps,     \* number of snapshots the initial table has (each holding one data file)
   InitTable,     \* "healthy" | "absent" (nothing on storage) | "hintlost" (pointer file missing) |
                  \* "hintgarbage" (pointer file holds bytes that do not parse)
+  FixMetaInTry,  \* TRUE: model the repaired commit(): the metadata write itself is covered by the clean-failure handler
   FixOrphanMeta, \* TRUE: model the repaired commit(): a metadata file written by a commit that failed cleanly is removed
   FixStamp,      \* TRUE: model the repaired OCC stamp (last_updated_ms strictly increases per commit)
   FixEtag,       \* TRUE: model the repaired CAS read (pointer must still name the validated version)
@@ -554,6 +555,20 @@ MyMetaName(a) == [v |-> loc[a].nextVer, u |-> loc[a].target]
 \* repaired code removes the file, so that recovery by scanning can never surface it
 AfterCleanFail == IF FixOrphanMeta THEN "c_discard" ELSE "c_unlock"
 
+\* object storage: the PUT of the metadata file landed, the client saw an error (second half of an after-effect
+\* fault at the metadata write:  WriteMeta(a, n) \cdot AfterMetaWriteFail(a)).  As the code was, _write_metadata_file
+\* ran outside the try block whose handler removes the file, so it stayed behind.
+AfterMetaWriteFail(a) ==
+  /\ Role[a] = "committer"
+  /\ pc[a] = "c_fence"
+  /\ Backend # "local"
+  /\ faults > 0
+  /\ faults' = faults - 1
+  /\ pc' = [pc EXCEPT ![a] = IF FixMetaInTry THEN AfterCleanFail ELSE "c_unlock"]
+  /\ loc' = [loc EXCEPT ![a].err = "error",
+                        ![a].after = IF OpKind(a) # "delsnap" THEN "rollback" ELSE "raise_keep"]
+  /\ UNCHANGED <<storageVars, clock, lockHolder, rlock, opi, att, lease, ghostVars>>
+
 DiscardMeta(a) ==
   /\ pc[a] = "c_discard"
   /\ LET me == MyMetaName(a) IN
@@ -743,7 +758,7 @@ Fault(a, kind) ==
         /\ loc' = [loc EXCEPT ![a].err = ErrOf(kind)]
         /\ UNCHANGED <<hint, commitLog, serial, tsOf, sidOfOp>>
      \/ /\ p \in LockedPcs
-        /\ pc' = [pc EXCEPT ![a] = IF p = "c_fence" /\ kind = "before" THEN AfterCleanFail ELSE "c_unlock"]
+        /\ pc' = [pc EXCEPT ![a] = IF (p = "c_fence" \/ (p = "c_wmeta" /\ FixMetaInTry)) /\ kind = "before" THEN AfterCleanFail ELSE "c_unlock"]
         /\ loc' = [loc EXCEPT ![a].err = ErrOf(kind),
                               ![a].after = IF OpKind(a) # "delsnap" /\ RollsBack(a, kind, TRUE) THEN "rollback" ELSE "raise_keep"]
         /\ UNCHANGED <<hint, commitLog, serial, tsOf, sidOfOp>>
@@ -792,6 +807,18 @@ AmbiguousAfterFlip(a) ==
   /\ faults' = faults - 1
   /\ loc' = [loc EXCEPT ![a].err = "ambiguous", ![a].after = "raise_keep"]
   /\ UNCHANGED <<storageVars, clock, lockHolder, rlock, pc, opi, att, lease, ghostVars>>
+
+\* CAS backends: the existence probe of the hinted file (part of the version lookup, before the metadata write and
+\* outside its handler) fails: straight to the unlock path.  In the model this differs from Fault at c_wmeta only
+\* by skipping a removal attempt that would find nothing.
+FaultInVersionProbe(a) ==
+  /\ Role[a] = "committer"
+  /\ pc[a] = "c_wmeta"
+  /\ faults > 0
+  /\ faults' = faults - 1
+  /\ pc' = [pc EXCEPT ![a] = "c_unlock"]
+  /\ loc' = [loc EXCEPT ![a].err = "error", ![a].after = IF OpKind(a) # "delsnap" THEN "rollback" ELSE "raise_keep"]
+  /\ UNCHANGED <<storageVars, clock, lockHolder, rlock, opi, att, lease, ghostVars>>
 
 \* the committing process dies (kill -9): nothing of its further program happens; a flock is released by the kernel
 Crash(a) ==
@@ -1317,6 +1344,7 @@ CommitterNext(a) ==
   \/ \E n \in DOMAIN metas \cup {NoName, hint.name} : ReadVersion(a, n)
   \/ WriteMeta(a, MName(a))
   \/ Fence(a) \/ FlipHint(a) \/ DUnlock(a) \/ TUnlock(a) \/ Backoff(a)
+  \/ ("after" \in FaultKinds /\ AfterMetaWriteFail(a))
   \/ \E f \in loc[a].marks : DeleteMarker(a, f) \/ RollbackDeleteMarker(a, f)
   \/ \E f \in SeqToSet(loc[a].files) : RollbackDeleteData(a, f)
   \/ ReturnOk(a) \/ ReturnErr(a) \/ Finish(a) \/ Heartbeat(a) \/ DiscardMeta(a)
